@@ -1331,6 +1331,10 @@ macro_rules! iter_sub_expr {
                         }
                     }
                     Expression::LitArr { fields, .. } => {
+                        // (holes have no sub-expression: skip them)
+                        while let Some(ArrayFieldKind::EmptySlot) = fields.get(self.index) {
+                            self.index += 1;
+                        }
                         let x = fields.$get(self.index)?;
                         self.index += 1;
                         match x {
